@@ -1150,11 +1150,11 @@ package astits
 //@   loop 0 invariant [C04,C05,C17] progress: 0 <= payloadBytesWritten && payloadBytesWritten <= len(d.PES.Data) && (writeAf ==> payloadStart && d.AdaptationField != nil && d.AdaptationField.StuffingLength == 0) && (payloadStart ==> payloadBytesWritten == 0)
 //@   loop 0 invariant [C04,C05,C17] count: wN(m.bitsWriter) - bytesWritten == atentry(wN(m.bitsWriter)) - atentry(bytesWritten) && atentry(bytesWritten) <= bytesWritten && bytesWritten - atentry(bytesWritten) <= 188 * (payloadBytesWritten + 2) && 0 <= atentry(bytesWritten) && atentry(bytesWritten) <= 0x100000 && atentry(wN(m.bitsWriter)) < 0x10000200000
 //@   loop 0 invariant [C04,C05,C17] whole: m188(bytesWritten)
-//@   loop 0 invariant [C04,C05,C17,C12] hdronce: payloadStart == (bytesWritten == atentry(bytesWritten))
+//@   loop 0 invariant [C04,C05,C17] hdronce: payloadStart == (bytesWritten == atentry(bytesWritten))
 //@   loop 0 invariant [C05] ccidle: bytesWritten == atentry(bytesWritten) ==> ctx.cc.value == atentry(ctx.cc.value)
 //@   at call (*Muxer).retransmitTables#0 assert [C17] force: $force == (d.AdaptationField != nil && d.AdaptationField.RandomAccessIndicator && d.PID == m.pmt.PCRPID)
 //@   at call (*Muxer).retransmitTables#0 assert [C17] first: wN(m.bitsWriter) == old(wN(m.bitsWriter))
-//@   at call writePESData#0 assert [C04,C12] hdronce: $isPayloadStart == (bytesWritten == atentry(bytesWritten))
+//@   at call writePESData#0 assert [C04] hdronce: $isPayloadStart == (bytesWritten == atentry(bytesWritten))
 //@   at call writePacket#* assert [C04] fills: 4 + ite($p.Header.HasAdaptationField, afBytes($p.AdaptationField), 0) + len($p.Payload) == 188
 //@   at call writePacket#* assert [C04,C05] haspayload: $p.Header.HasPayload
 //@   at call writePacket#0 assert [C04] pusi: $p.Header.PayloadUnitStartIndicator == (bytesWritten == atentry(bytesWritten))
